@@ -32,6 +32,8 @@ def check(repo: Repo, rep, tier):
     nonoverlap(repo, rep)
     wholefile_gate(repo, rep)
     import_only(repo, rep)
+    import_scope(repo, rep)
+    file_identity(repo, rep)
     io_newline(repo, rep)
     io_encoding(repo, rep)
     line_model(repo, rep)
@@ -42,6 +44,12 @@ def check(repo: Repo, rep, tier):
     from .C04 import session_gate
 
     session_gate(repo, rep)
+    from .C20 import mode_table, one_mode
+
+    # the whole-file gate compares against black run with *this file's* options: a mode that belongs to another file / project
+    # re-wraps code outside the snapshot() arguments
+    one_mode(repo, rep)
+    mode_table(repo, rep)
 
 
 def edit_calls(repo: Repo):
@@ -385,6 +393,113 @@ def import_only(repo: Repo, rep):
         rep.ok("R-IMPORT-ONLY", f, adds[0].ast, "an import is added only if contains_import() does not find it")
     else:
         rep.violation("R-IMPORT-ONLY", f, f.node, "ensure_import adds an import without checking that it is missing (duplicate import lines on every run)", construct="no-contains-check")
+
+
+def import_scope(repo: Repo, rep):
+    rep.rule(
+        "R-IMPORT-SCOPE",
+        "whether a test module already imports a name is decided from its module-level statements only: every loop / comprehension of _find_external.py "
+        "that tests its variable with isinstance(.., ast.ImportFrom / ast.Import) iterates over `<tree>.body`.  An import inside a function, a class body or "
+        "an `if TYPE_CHECKING:` block (found by ast.walk or a recursive search) does not bind the name for the snapshot() argument: the generated "
+        "`external(...)` / `HasRepr(...)` raises NameError, and externals used by such a module are not counted as used",
+    )
+    m = repo.module("_find_external.py")
+    n = 0
+    for f in m.funcs.values():
+        cfg = None
+        for x in body_nodes(f.node):
+            if not isinstance(x, (ast.For, ast.comprehension)) or not isinstance(x.target, ast.Name):
+                continue
+            v = x.target.id
+            scope = x if isinstance(x, ast.For) else parent(x)
+            tests = [c for c in ast.walk(scope) if isinstance(c, ast.Call) and norm(c.func) == "isinstance" and len(c.args) == 2 and norm(c.args[0]) == v and "Import" in norm(c.args[1])]
+            if not tests:
+                continue
+            n += 1
+            it = x.iter
+            if isinstance(it, ast.Name):
+                cfg = cfg or cfg_of(f)
+                at = cfg.nodes_containing(it)
+                if at:
+                    it = resolve_alias(cfg, at[0], it)
+            if isinstance(it, ast.Attribute) and it.attr == "body" and isinstance(it.value, ast.Name):
+                rep.ok("R-IMPORT-SCOPE", f, tests[0], f"imports are looked for in `{norm(it)}` (module level)")
+            else:
+                rep.violation(
+                    "R-IMPORT-SCOPE",
+                    f,
+                    tests[0],
+                    f"{f.qualname} looks for imports in `{short(it, 40)}`, not in the module-level statements: an import local to a function / class / not-executed branch counts as "
+                    "'the module imports it', the module-level import is not added and the generated external(...) / HasRepr(...) raises NameError",
+                    construct=f"{f.qualname}:scan-scope",
+                )
+    rep.floor("R-IMPORT-SCOPE", "import scans in _find_external.py", n, 2)
+
+
+PATH_NORMALISERS = ("realpath", "abspath", "normpath", "normcase", "resolve", "absolute", "expanduser", "relative_to", "relpath", "as_posix")
+
+
+def file_identity(repo: Repo, rep):
+    rep.rule(
+        "R-FILE-IDENTITY",
+        "all edits of one test file meet in one SourceFile of the ChangeRecorder: the recorder keys its files by the file name it is handed, so every "
+        "`filename` accessor of the source wrappers (Change.filename, SourceFile.filename) and every `filename=` argument of an edit call passes the "
+        "name on as executing reported it - none of them applies a path normaliser (realpath / abspath / resolve / relative_to ...).  A second spelling of "
+        "the same file gives it a second entry: fix_all() then writes the file twice, the second time applying positions of the original text to the "
+        "already rewritten one (code outside the snapshot() argument is overwritten)",
+    )
+
+    def normaliser_in(e):
+        for x in ast.walk(e):
+            if isinstance(x, ast.Call):
+                nm = norm(x.func).split(".")[-1]
+                if nm in PATH_NORMALISERS:
+                    return nm
+        return None
+
+    n_acc = 0
+    for f in repo.pkg_funcs():
+        if f.name != "filename" or f.module.rel.startswith("testing/") or f.module.rel == "_rewrite_code.py":
+            continue
+        n_acc += 1
+        cfg = cfg_of(f)
+        bad = None
+        for r in cfg.stmts(ast.Return):
+            v = r.ast.value
+            if v is None:
+                continue
+            exprs = [v]
+            for nm in [x for x in ast.walk(v) if isinstance(x, ast.Name)]:
+                for d in reaching_defs(cfg, r, nm.id):
+                    dv = def_value(d, nm.id)
+                    if dv is not None:
+                        exprs.append(dv)
+            for e in exprs:
+                bad = bad or normaliser_in(e)
+        if bad:
+            rep.violation("R-FILE-IDENTITY", f, f.node, f"{f.qualname} returns the file name through `{bad}()`: changes recorded through this accessor and changes recorded with the name executing reports land in two SourceFile entries when the two spellings differ (symlinked checkout, relative invocation): the file is rewritten twice", construct=f"{f.qualname}:normalised")
+        else:
+            rep.ok("R-FILE-IDENTITY", f, f.node, "the file name is passed on unchanged")
+    rep.floor("R-FILE-IDENTITY", "filename accessors of the source wrappers", n_acc, 2)
+    sites = [(f, c) for f, c in edit_calls(repo) if f.module.rel != "_rewrite_code.py"]
+    for f, c in sites:
+        e = next(k.value for k in c.keywords if k.arg == "filename")
+        cfg = cfg_of(f)
+        at = cfg.nodes_containing(c)
+        exprs = [e]
+        if isinstance(e, ast.Name) and at:
+            for d in reaching_defs(cfg, at[0], e.id):
+                dv = def_value(d, e.id)
+                if dv is not None:
+                    exprs.append(dv)
+        bad = None
+        for x in exprs:
+            bad = bad or normaliser_in(x)
+        if bad:
+            rep.violation("R-FILE-IDENTITY", f, c, f"{f.qualname} records an edit under a file name normalised with `{bad}()`: a second spelling of the same file", construct=f"{f.qualname}:edit-normalised")
+        else:
+            rep.ok("R-FILE-IDENTITY", f, c, "edit recorded under the name as reported")
+    rep.floor("R-FILE-IDENTITY", "edit call sites", len(sites), 4)
 
 
 def io_newline(repo: Repo, rep):
